@@ -311,8 +311,16 @@ def propagate_rebin_uncertainties(uncertainty, data, mask, operation, operation_
     # number of unmasked pixels in each bin.
     if operation_is_mean and propagation_operation is np.add:
         if mask is False:
-            new_uncertainty.array /= n_pix_per_bin
+            n_contributing = n_pix_per_bin
         else:
             unmasked_per_bin = np.logical_not(mask).astype(int).sum(axis=flat_axis)
-            new_uncertainty.array /= np.clip(unmasked_per_bin, 1, None)
+            n_contributing = np.clip(unmasked_per_bin, 1, None)
+        # A standard deviation scales with 1/n, a variance with 1/n**2
+        # and an inverse variance with n**2.
+        if isinstance(new_uncertainty, astropy.nddata.VarianceUncertainty):
+            new_uncertainty.array /= n_contributing**2
+        elif isinstance(new_uncertainty, astropy.nddata.InverseVariance):
+            new_uncertainty.array *= n_contributing**2
+        else:
+            new_uncertainty.array /= n_contributing
     return new_uncertainty
